@@ -59,7 +59,8 @@ func (app *App) MarkReplicationRunning(node *mysql.Node, channel string) {
 
 	if replState.cooldownPassed(app.config.ReplicationRepairCooldown) {
 		status, err := node.ReplicaStatusWithTimeout(app.config.DBTimeout, channel)
-		if err != nil {
+		if err != nil || status == nil {
+			// no status: the channel is gone, nothing to compare
 			return
 		}
 
@@ -249,6 +250,9 @@ func (app *App) createRepairState(hostname, channel string) (*ReplicationRepairS
 	status, err := app.cluster.Get(hostname).ReplicaStatusWithTimeout(app.config.DBTimeout, channel)
 	if err != nil {
 		return nil, err
+	}
+	if status == nil {
+		return nil, fmt.Errorf("host %s has no replication channel '%s' any more", hostname, channel)
 	}
 
 	result := ReplicationRepairState{
